@@ -62,6 +62,8 @@ def run(tier, seed):
     pr.all_paths("Quantile.quantile[count>=5].between_extreme_markers", fq,
                  [(pp.pc, And(pp.result.ge(T.sym("q0")), pp.result.le(T.sym("q4"))) if not tm.mentions(pp.result) else FALSE) for pp in paths if not pp.panic])
     obs = pr.obs
+    import vl
+    obs += vl.run_lemmas("C15", ["stagewise"])
     # K: bit-precise parts
     job = KaniJob("C15", timeout=2400 if tier == "thorough" else 600, harness_timeout=2000 if tier == "thorough" else 400)
     job.include_module(F, "quantile.rs")
